@@ -21,6 +21,8 @@ CONSTANTS
   UseEpochs = FALSE
   OccSet = {FALSE}
   MinCleanSegs = 1
+  UseRevReaders = FALSE
+  UseFaults = FALSE
   UseReaders = FALSE
 INVARIANTS CTypeOK EpochCacheKnowsLatest
 VIEW MCView
